@@ -6,6 +6,7 @@ import UnifexModel.Driver.Entry
 import UnifexModel.Driver.Entries.StopSource
 import UnifexModel.Driver.Entries.Calc
 import UnifexModel.Driver.Entries.Timer
+import UnifexModel.Driver.Entries.Scope
 
 namespace Unifex.Driver
 
@@ -15,6 +16,9 @@ def table : List ModelEntries :=
   , Entries.clock
   , Entries.timerqueue
   , Entries.timerop
+  , Entries.scopev2
+  , Entries.scopev1
+  , Entries.scopev0
   ]
 
 def lookup (m c : String) : Option Entry :=
